@@ -9,9 +9,26 @@
 Mutants are textual replacements listed in mutants/mutants.json:
   {"name": ..., "property": ..., "file": ..., "old": ..., "new": ..., "note": ...}
 """
-import json, subprocess, sys, os
+import json, subprocess, sys, os, shutil
 ROOT = os.path.dirname(os.path.dirname(os.path.abspath(__file__)))
 REPO = "/repo"
+
+
+def _stash_evidence():
+    """Checks rewrite evidence/<id>.json on every run; runs against a deliberately broken /repo must not
+    leave their evidence behind (committed evidence has to come from the unchanged tree)."""
+    import glob, tempfile
+    d = tempfile.mkdtemp(prefix="evidence-stash-")
+    for f in glob.glob(os.path.join(ROOT, "evidence", "C*.json")):
+        shutil.copy(f, d)
+    return d
+
+
+def _restore_evidence(d):
+    import glob
+    for f in glob.glob(os.path.join(d, "C*.json")):
+        shutil.copy(f, os.path.join(ROOT, "evidence"))
+    shutil.rmtree(d, ignore_errors=True)
 
 def load():
     return json.load(open(os.path.join(ROOT, "mutants", "mutants.json")))
@@ -59,6 +76,7 @@ def main():
         import time
         only = a[1:]
         rows = []
+        stash = _stash_evidence()
         for m in load():
             if only and not any(m["name"].startswith(o) for o in only):
                 continue
@@ -78,6 +96,7 @@ def main():
                 verdict = ("silent (expected: equivalent)" if rc == 0 else "ALARM ON EQUIVALENT CHANGE") if equiv else ("caught" if rc == 1 else ("MISSED" if rc == 0 else "inconclusive rc=%d" % rc))
                 rows.append(dict(mutant=m["name"], property=prop, exit=rc, verdict=verdict, first_signature=sig[:160], note=m.get("note", ""), secs=round(time.time() - t0, 1)))
                 print("%-42s %-4s %-32s %s" % (m["name"], prop, verdict, sig[:90]), flush=True)
+        _restore_evidence(stash)
         path = os.path.join(ROOT, "mutants", "RESULTS.json")
         old = json.load(open(path)) if os.path.exists(path) else []
         old = [o for o in old if not any(o["mutant"] == r["mutant"] and o["property"] == r["property"] for r in rows)]
